@@ -1730,3 +1730,286 @@ Section Keeps.
     rewrite forallb_app'. cbn [forallb]. now rewrite F1, Ci'.
   Qed.
 End Keeps.
+
+(* ------------------------------------------------------------------ *)
+(** * The full invariant (all annotations of a flat table) under single writes *)
+Definition flat_table (ct : ctable) : Prop :=
+  forall c k sp, lookup_cls ct c = Some k -> In sp (c_attrs k) -> flat (a_ty sp) = true.
+Definition TI (ct : ctable) (h : heap_t) : Prop := TInvP (fun _ => true) ct h.
+Definition dict_all_ok ct h c d := dict_ok (fun _ => true) ct h c d.
+
+(* cell c is held by a managed attribute annotated t *)
+Definition viewed (ct : ctable) (h : heap_t) (c : loc) (t : ty) : Prop :=
+  exists l cl d k a sp, nth_error h l = Some (OInst cl d) /\ lookup_cls ct cl = Some k /\
+    In (a, VRef c) d /\ lookup_attr k a = Some sp /\ a_ty sp = t.
+
+Lemma check_flat_valid ct fuel h t c : flat_coll t = true ->
+  check_type fuel ct h (VRef c) t = true -> exists o, nth_error h c = Some o /\ shape o < 3.
+Proof.
+  intros Ft C. destruct fuel; [discriminate|]. simpl in C.
+  destruct t; simpl in Ft; try discriminate; destruct (nth_error h c) as [[]|]; try discriminate;
+    eexists; split; eauto; simpl; lia.
+Qed.
+
+Lemma check_flat_app ct fuel h o t v :
+  flat t = true -> check_type fuel ct h v t = true -> check_type fuel ct (h ++ [o]) v t = true.
+Proof.
+  intros Ft C. unfold flat in Ft. destruct (simple t) eqn:St.
+  - eapply check_simple_ext; eauto. apply ext_app.
+  - simpl in Ft. destruct v; try (destruct fuel, t; simpl in *; discriminate).
+    destruct (check_flat_valid _ _ _ _ _ Ft C) as [o1 [N _]].
+    apply (check_flat_cell ct fuel h (h ++ [o]) t l Ft (ext_app h o)); auto.
+    apply nth_error_app1. apply nth_error_Some. congruence.
+Qed.
+
+Section FullInv.
+  Variable ct : ctable.
+  Hypothesis Hflat : flat_table ct.
+
+  Lemma flat_attr c k a sp : lookup_cls ct c = Some k -> lookup_attr k a = Some sp -> flat (a_ty sp) = true.
+  Proof. intros Hk Ha. eapply Hflat; eauto. eapply lookup_attr_in; eauto. Qed.
+
+  Theorem TI_alloc h o :
+    TI ct h -> match o with OInst c d => dict_all_ok ct h c d | _ => True end -> TI ct (h ++ [o]).
+  Proof.
+    intros T Ho l c d N k a v sp Hk Hi Ha _.
+    assert (Fl := flat_attr _ _ _ _ Hk Ha).
+    destruct (lt_dec l (length h)) as [L|L].
+    - rewrite nth_error_app1 in N by auto. apply check_flat_app; auto. eapply T; eauto.
+    - rewrite nth_error_app2 in N by lia. destruct (l - length h) as [|n]; simpl in N; [|destruct n; discriminate].
+      inversion N; subst o. apply check_flat_app; auto. eapply Ho; eauto.
+  Qed.
+
+  (* writing an instance dict whose entries conform *)
+  Theorem TI_write_inst h l c d0 d :
+    TI ct h -> nth_error h l = Some (OInst c d0) -> dict_all_ok ct h c d ->
+    TI ct (set_nth l (OInst c d) h).
+  Proof.
+    intros T N Hd l1 c1 d1 N1 k a v sp Hk Hi Ha _.
+    assert (Fl := flat_attr _ _ _ _ Hk Ha).
+    assert (Hv : check_type FUEL ct h v (a_ty sp) = true).
+    { destruct (Nat.eq_dec l l1) as [<-|Ne].
+      - rewrite nth_error_set_nth_same in N1 by (apply nth_error_Some; congruence).
+        inversion N1; subst. eapply Hd; eauto.
+      - rewrite set_nth_other in N1 by auto. eapply T; eauto. }
+    eapply check_flat_other; eauto. intros c2 ->.
+    destruct (flat_coll (a_ty sp)) eqn:Fc; auto. left. intros ->.
+    destruct (check_flat_valid _ _ _ _ _ Fc Hv) as [o [No So]]. rewrite N in No. inversion No; subst.
+    simpl in So. lia.
+  Qed.
+
+  (* writing a container cell: enough that every annotation under which the
+     cell is viewed accepts the new content (elements of other cells are simple) *)
+  Theorem TI_write_container h c o0 o :
+    TI ct h -> nth_error h c = Some o0 -> shape o = shape o0 -> shape o0 < 3 ->
+    (forall t, viewed ct h c t -> flat_coll t = true ->
+               check_type FUEL ct (set_nth c o h) (VRef c) t = true) ->
+    TI ct (set_nth c o h).
+  Proof.
+    intros T N S Sc Hview l c1 d N1 k a v sp Hk Hi Ha _.
+    assert (Fl := flat_attr _ _ _ _ Hk Ha).
+    assert (N0 : nth_error h l = Some (OInst c1 d)).
+    { destruct (Nat.eq_dec c l) as [<-|Ne]; [|now rewrite set_nth_other in N1].
+      rewrite nth_error_set_nth_same in N1 by (apply nth_error_Some; congruence).
+      inversion N1; subst. rewrite N in *. destruct o0; simpl in *; try discriminate. lia. }
+    assert (Hv : check_type FUEL ct h v (a_ty sp) = true) by (eapply T; eauto).
+    destruct (flat_coll (a_ty sp)) eqn:Fc.
+    - destruct v as [| | | | | | | |c2]; try (eapply check_flat_other; eauto; intros ? E; discriminate).
+      destruct (Nat.eq_dec c2 c) as [->|Ne].
+      + apply Hview; auto. exists l, c1, d, k, a, sp. auto.
+      + eapply check_flat_other; eauto. intros ? E. inversion E; subst. auto.
+    - eapply check_flat_other; eauto.
+  Qed.
+
+  (* only annotation t views the cell *)
+  Definition only_view (h : heap_t) (c : loc) (t : ty) : Prop :=
+    forall t', viewed ct h c t' -> flat_coll t' = true -> t' = t.
+
+  Ltac run_err H := inversion H; subst; left; split; [reflexivity|intros ? E; discriminate].
+
+  Lemma read_list_run s c : read_list (VRef c) s =
+    match nth_error (heap s) c with
+    | Some (OList xs) => (Ok (c, xs), s)
+    | Some _ => (Err TypeErr, s)
+    | None => (Err RuntimeErr, s) end.
+  Proof. unfold read_list, loc_of_t, read, bind, ret, fail. destruct (nth_error (heap s) c) as [[]|]; reflexivity. Qed.
+
+  (* a run of the sequence inserter either leaves the state alone (and fails)
+     or performs exactly one write, to the list cell *)
+  Lemma seq_inserter_run s sp c index item ins r s' :
+    seq_inserter ct sp (VRef c) index item ins s = (r, s') ->
+    (s' = s /\ forall u, r <> Ok u) \/
+    (exists xs xs', r = Ok tt /\ nth_error (heap s) c = Some (OList xs) /\
+                    s' = mkst (set_nth c (OList xs') (heap s)) (ncalls s) (fail_at s)).
+  Proof.
+    intro H. unfold seq_inserter in H. erewrite bind_ok' in H; [|apply check_typeM_eq].
+    destruct (negb _); [run_err H|].
+    unfold bind at 1 in H. rewrite read_list_run in H.
+    destruct (nth_error (heap s) c) as [[xs| | |]|] eqn:N; try (run_err H).
+    cbn [fst snd] in H.
+    assert (W : forall xs', write c (OList xs') s = (r, s') ->
+      exists xs0 xs'0, r = Ok tt /\ Some (OList xs) = Some (OList xs0) /\
+        s' = mkst (set_nth c (OList xs'0) (heap s)) (ncalls s) (fail_at s)).
+    { intros xs' Hw. erewrite write_eq in Hw by eauto. inversion Hw; subst. eauto. }
+    destruct index; try (run_err H); cbv zeta in H.
+    - right. eapply W; eauto.
+    - destruct ins; [right; eapply W; eauto|]. destruct (norm_index _ _); [right; eapply W; eauto|run_err H].
+    - destruct ins; [right; eapply W; eauto|]. destruct (norm_index _ _); [right; eapply W; eauto|run_err H].
+  Qed.
+
+  Theorem seq_inserter_preserves_TI s sp c index item ins r s' e :
+    a_ty sp = TList e -> simple e = true -> shallow (a_ty sp) ->
+    TI ct (heap s) -> check_type FUEL ct (heap s) (VRef c) (TList e) = true ->
+    only_view (heap s) c (TList e) ->
+    seq_inserter ct sp (VRef c) index item ins s = (r, s') -> TI ct (heap s').
+  Proof.
+    intros Ht Se Sh T C V H. destruct (seq_inserter_run _ _ _ _ _ _ _ _ H) as [[-> _]|[xs [xs' [-> [N ->]]]]]; auto.
+    simpl heap. eapply TI_write_container; eauto; try (simpl; lia).
+    intros t Vt Ft. rewrite (V t Vt Ft).
+    apply (seq_inserter_keeps ct s sp c index item ins tt _ e Ht Se Sh C H).
+  Qed.
+
+  Lemma read_dict_run s c : read_dict (VRef c) s =
+    match nth_error (heap s) c with
+    | Some (ODict xs) => (Ok (c, xs), s)
+    | Some _ => (Err TypeErr, s)
+    | None => (Err RuntimeErr, s) end.
+  Proof. unfold read_dict, loc_of_t, read, bind, ret, fail. destruct (nth_error (heap s) c) as [[]|]; reflexivity. Qed.
+  Lemma read_set_run s c : read_set (VRef c) s =
+    match nth_error (heap s) c with
+    | Some (OSet xs) => (Ok (c, xs), s)
+    | Some _ => (Err TypeErr, s)
+    | None => (Err RuntimeErr, s) end.
+  Proof. unfold read_set, loc_of_t, read, bind, ret, fail. destruct (nth_error (heap s) c) as [[]|]; reflexivity. Qed.
+
+  Lemma map_inserter_run s sp c key item r s' :
+    map_inserter ct sp (VRef c) key item s = (r, s') ->
+    (s' = s /\ forall u, r <> Ok u) \/
+    (exists xs xs', r = Ok tt /\ nth_error (heap s) c = Some (ODict xs) /\
+                    s' = mkst (set_nth c (ODict xs') (heap s)) (ncalls s) (fail_at s)).
+  Proof.
+    intro H. unfold map_inserter in H. erewrite bind_ok' in H; [|apply check_typeM_eq].
+    destruct (negb _); [run_err H|].
+    erewrite bind_ok' in H; [|apply check_typeM_eq]. destruct (negb _); [run_err H|].
+    unfold bind at 1 in H. rewrite read_dict_run in H.
+    destruct (nth_error (heap s) c) as [[|xs| |]|] eqn:N; try (run_err H).
+    cbn [fst snd] in H. unfold dict_assign in H.
+    destruct (negb (hashable key)); [unfold bind, fail in H; run_err H|].
+    unfold bind at 1 in H. unfold bind at 1 in H. unfold get_heap, ret in H.
+    erewrite write_eq in H by eauto. inversion H; subst. right. eauto.
+  Qed.
+
+  Theorem map_inserter_preserves_TI s sp c key item r s' k e :
+    a_ty sp = TDict k e -> simple k = true -> simple e = true -> shallow (a_ty sp) ->
+    TI ct (heap s) -> check_type FUEL ct (heap s) (VRef c) (TDict k e) = true ->
+    only_view (heap s) c (TDict k e) ->
+    map_inserter ct sp (VRef c) key item s = (r, s') -> TI ct (heap s').
+  Proof.
+    intros Ht Sk Se Sh T C V H. destruct (map_inserter_run _ _ _ _ _ _ _ H) as [[-> _]|[xs [xs' [-> [N ->]]]]]; auto.
+    simpl heap. eapply TI_write_container; eauto; try (simpl; lia).
+    intros t Vt Ft. rewrite (V t Vt Ft).
+    apply (map_inserter_keeps ct s sp c key item tt _ k e Ht Sk Se Sh C H).
+  Qed.
+
+  Lemma set_inserter_run s sp c index item r s' :
+    set_inserter ct sp (VRef c) index item s = (r, s') ->
+    (s' = s /\ forall u, r <> Ok u) \/
+    (exists xs xs', r = Ok tt /\ nth_error (heap s) c = Some (OSet xs) /\
+                    s' = mkst (set_nth c (OSet xs') (heap s)) (ncalls s) (fail_at s)).
+  Proof.
+    intro H. unfold set_inserter in H. erewrite bind_ok' in H; [|apply check_typeM_eq].
+    destruct (negb _); [run_err H|].
+    unfold bind at 1 in H. rewrite read_set_run in H.
+    destruct (nth_error (heap s) c) as [[| |xs|]|] eqn:N; try (run_err H).
+    cbn [fst snd] in H.
+    assert (Hx1 : (s' = s /\ forall u, r <> Ok u) \/
+              exists xs1, (b <- set_mem ct xs1 item ;; write c (OSet (if b then xs1 else xs1 ++ [item]))) s = (r, s')).
+    { match type of H with context [if ?b then set_discard _ _ _ else _] => destruct b end.
+      - unfold set_discard in H. destruct (negb (hashable index)); [unfold bind, fail in H; run_err H|].
+        unfold bind at 1 in H. unfold bind at 1 in H. unfold get_heap, ret in H. right. eauto.
+      - right. exists xs. exact H. }
+    destruct Hx1 as [Hl|[xs1 H1]]; [left; exact Hl|].
+    unfold set_mem in H1. destruct (negb (hashable item)); [unfold bind, fail in H1; run_err H1|].
+    unfold bind at 1 in H1. unfold bind at 1 in H1. unfold get_heap, ret in H1.
+    erewrite write_eq in H1 by eauto. inversion H1; subst. right. eauto.
+  Qed.
+
+  Theorem set_inserter_preserves_TI s sp c index item r s' e :
+    a_ty sp = TSet e -> simple e = true -> shallow (a_ty sp) ->
+    TI ct (heap s) -> check_type FUEL ct (heap s) (VRef c) (TSet e) = true ->
+    only_view (heap s) c (TSet e) ->
+    set_inserter ct sp (VRef c) index item s = (r, s') -> TI ct (heap s').
+  Proof.
+    intros Ht Se Sh T C V H. destruct (set_inserter_run _ _ _ _ _ _ _ H) as [[-> _]|[xs [xs' [-> [N ->]]]]]; auto.
+    simpl heap. eapply TI_write_container; eauto; try (simpl; lia).
+    intros t Vt Ft. rewrite (V t Vt Ft).
+    apply (set_inserter_keeps ct s sp c index item tt _ e Ht Se Sh C H).
+  Qed.
+
+  (* the single instance write of the library: a conforming value may be stored *)
+  Theorem raw_setattr_preserves_TI s l a v c d r s' :
+    nth_error (heap s) l = Some (OInst c d) -> TI ct (heap s) ->
+    (forall k sp, lookup_cls ct c = Some k -> lookup_attr k a = Some sp ->
+                  check_type FUEL ct (heap s) v (a_ty sp) = true) ->
+    raw_setattr l a v s = (r, s') -> TI ct (heap s').
+  Proof.
+    intros N T Hv H. unfold raw_setattr in H.
+    erewrite bind_ok' in H; [|apply read_inst_eq; eauto]. cbn [fst snd] in H.
+    erewrite write_eq in H by eauto. inversion H; subst. simpl heap.
+    eapply TI_write_inst; eauto. intros k a0 v0 sp Hk Hi Ha _.
+    apply assoc_set_in in Hi. destruct Hi as [Hi|[-> ->]]; [eapply T; eauto|eauto].
+  Qed.
+
+  Theorem raw_delattr_preserves_TI s l a r s' :
+    TI ct (heap s) -> raw_delattr l a s = (r, s') -> TI ct (heap s').
+  Proof.
+    intros T H. unfold raw_delattr in H.
+    destruct (nth_error (heap s) l) as [o|] eqn:N.
+    - destruct o as [| | |c d].
+      1-3: (unfold read_inst, bind, read in H; rewrite N in H; inversion H; subst; exact T).
+      erewrite bind_ok' in H; [|apply read_inst_eq; eauto]. cbn [fst snd] in H.
+      destruct (assoc a d); [|inversion H; subst; exact T].
+      erewrite write_eq in H by eauto. inversion H; subst. simpl heap.
+      eapply TI_write_inst; eauto. intros k a0 v0 sp Hk Hi Ha _.
+      apply assoc_del_in in Hi. eapply T; eauto.
+    - unfold read_inst, bind, read in H. rewrite N in H. inversion H; subst; exact T.
+  Qed.
+
+  Lemma viewed_check h c t : TI ct h -> viewed ct h c t -> check_type FUEL ct h (VRef c) t = true.
+  Proof. intros T (l & cl & d & k & a & sp & N & Hk & Hi & Ha & <-). eapply T; eauto. Qed.
+
+  (* removing elements (without_<item>, discard) is safe under EVERY view of the cell *)
+  Theorem TI_shrink_list h c xs xs' :
+    TI ct h -> nth_error h c = Some (OList xs) ->
+    (forall f : val -> bool, forallb f xs = true -> forallb f xs' = true) ->
+    TI ct (set_nth c (OList xs') h).
+  Proof.
+    intros T N Sub. eapply TI_write_container; eauto; try (simpl; lia).
+    intros t V Ft. pose proof (viewed_check _ _ _ T V) as C.
+    destruct FUEL_SS as [f Ef]. rewrite Ef in *.
+    destruct t; simpl in Ft; try discriminate; simpl in C; rewrite N in C; try discriminate.
+    eapply coll_write_list; eauto.
+  Qed.
+  Theorem TI_shrink_set h c xs xs' :
+    TI ct h -> nth_error h c = Some (OSet xs) ->
+    (forall f : val -> bool, forallb f xs = true -> forallb f xs' = true) ->
+    TI ct (set_nth c (OSet xs') h).
+  Proof.
+    intros T N Sub. eapply TI_write_container; eauto; try (simpl; lia).
+    intros t V Ft. pose proof (viewed_check _ _ _ T V) as C.
+    destruct FUEL_SS as [f Ef]. rewrite Ef in *.
+    destruct t; simpl in Ft; try discriminate; simpl in C; rewrite N in C; try discriminate.
+    eapply coll_write_set; eauto.
+  Qed.
+  Theorem TI_shrink_dict h c xs xs' :
+    TI ct h -> nth_error h c = Some (ODict xs) ->
+    (forall f : val * val -> bool, forallb f xs = true -> forallb f xs' = true) ->
+    TI ct (set_nth c (ODict xs') h).
+  Proof.
+    intros T N Sub. eapply TI_write_container; eauto; try (simpl; lia).
+    intros t V Ft. pose proof (viewed_check _ _ _ T V) as C.
+    destruct FUEL_SS as [f Ef]. rewrite Ef in *.
+    destruct t; simpl in Ft; try discriminate; simpl in C; rewrite N in C; try discriminate.
+    apply andb_true_iff in Ft. destruct Ft. eapply coll_write_dict; eauto.
+  Qed.
+End FullInv.
